@@ -51,12 +51,31 @@ def Store.has (s : Store) (x : Id) : Bool := s.packed x || s.isLoose x || s.alts
 /-- `iter(store)`: packs, loose, alternates (a multiset; callers use it as a set). -/
 def Store.allIds (s : Store) : List Id := s.packs.flatMap (·.ids) ++ s.looseIds ++ s.alts
 
-/-- `DiskObjectStore.get_object_mtime`: the loose file's mtime if loose, else the mtime of the first pack
-(in `store.packs` order) that has it, else `KeyError` (object only in an alternate). -/
-def Store.mtime? (s : Store) (x : Id) : Option Nat :=
-  match s.loose.lookup x with
-  | some t => some t
-  | none => (s.packs.find? (fun p => p.ids.contains x)).map (·.mtime)
+/-- Which of the two behaviours repaired by the C10 fix series the model follows (`Gen/GC.lean` says what the source
+does now; the theorems about grace periods are for `Variant.fixed`). -/
+structure Variant where
+  /-- `get_object_mtime` returns the most recent mtime over all copies (old code: the loose file's, else the first pack's) -/
+  maxMtime : Bool
+  /-- `_complete_pack` refreshes the mtime of an existing pack with the same objects (old code: left it as it was) -/
+  refreshExisting : Bool
+  deriving DecidableEq, Repr
+
+def Variant.fixed : Variant := { maxMtime := true, refreshExisting := true }
+def Variant.old : Variant := { maxMtime := false, refreshExisting := false }
+
+/-- mtimes of all copies of `x`: loose files, then packs (in `store.packs` order) -/
+def Store.mtimes (s : Store) (x : Id) : List Nat :=
+  (s.loose.filter (fun e => e.1 == x)).map (·.2) ++ (s.packs.filter (fun p => p.ids.contains x)).map (·.mtime)
+
+def maxOf : List Nat → Option Nat
+  | [] => none
+  | t :: ts => some (ts.foldl max t)
+
+/-- `DiskObjectStore.get_object_mtime`: the most recent mtime over all copies; `KeyError` (`none`) when there is no
+local copy (object only in an alternate).  Old variant: the loose file's mtime if loose, else the mtime of the first pack
+(in `store.packs` order) that has it. -/
+def Store.mtime? (v : Variant) (s : Store) (x : Id) : Option Nat :=
+  if v.maxMtime then maxOf (s.mtimes x) else (s.mtimes x).head?
 
 /-! ### find_reachable_objects -/
 
@@ -97,18 +116,18 @@ def young (grace : Option Nat) (now mtime : Nat) : Bool :=
   | none => false
   | some g => decide (now < mtime + g)
 
-/-- the grace-period filter of `garbage_collect`: with a grace period, an object whose mtime cannot be
-determined (`KeyError`: only in an alternate) is skipped, a young one is kept; without one everything
+/-- the grace-period filter of `garbage_collect` / `prune_unreachable_objects`: with a grace period, an object whose
+mtime cannot be determined (`KeyError`: only in an alternate) is skipped, a young one is kept; without one everything
 unreachable is selected. -/
-def selectable (s : Store) (grace : Option Nat) (now : Nat) (x : Id) : Bool :=
+def selectable (v : Variant) (s : Store) (grace : Option Nat) (now : Nat) (x : Id) : Bool :=
   match grace with
   | none => true
-  | some g => match s.mtime? x with
+  | some g => match s.mtime? v x with
     | none => false
     | some t => !young (some g) now t
 
-def toPrune (s : Store) (reach : List Id) (grace : Option Nat) (now : Nat) : List Id :=
-  (unreachable s reach).filter (selectable s grace now)
+def toPrune (v : Variant) (s : Store) (reach : List Id) (grace : Option Nat) (now : Nat) : List Id :=
+  (unreachable s reach).filter (selectable v s grace now)
 
 /-! ### repack / pack_loose_objects -/
 
@@ -119,41 +138,44 @@ def dedup : List Id → List Id
 def sameSet (a b : List Id) : Bool := a.all (b.contains ·) && b.all (a.contains ·)
 
 /-- `add_objects` followed by `_complete_pack`: a pack whose name (hash of its sorted ids) equals that of an
-existing pack is not written, the existing pack is returned. -/
-def installPack (packs : List Pack) (objs : List Id) (now : Nat) : List Pack × Pack :=
+existing pack is not written, the existing pack is returned — with its mtime refreshed (`refreshExisting`). -/
+def installPack (v : Variant) (packs : List Pack) (objs : List Id) (now : Nat) : List Pack × Pack :=
   match packs.find? (fun p => sameSet p.ids objs) with
-  | some p => (packs, p)
+  | some p =>
+    if v.refreshExisting then
+      (packs.map (fun q => if q = p then { q with mtime := now } else q), { p with mtime := now })
+    else (packs, p)
   | none => (packs ++ [{ ids := objs, mtime := now }], { ids := objs, mtime := now })
 
 /-- `PackBasedObjectStore.repack(exclude)`: everything loose or packed that is not excluded goes into one
 new pack; all loose objects (packed or excluded) are deleted; all old packs except a same-named one are removed. -/
-def repack (s : Store) (exclude : List Id) (now : Nat) : Store :=
+def repack (v : Variant) (s : Store) (exclude : List Id) (now : Nat) : Store :=
   let objs := dedup ((s.looseIds.filter (fun x => !exclude.contains x)) ++
                      s.packs.flatMap (fun p => p.ids.filter (fun x => !exclude.contains x)))
   if objs.isEmpty then { loose := [], packs := [], alts := s.alts }
-  else { loose := [], packs := [(installPack s.packs objs now).2], alts := s.alts }
+  else { loose := [], packs := [(installPack v s.packs objs now).2], alts := s.alts }
 
 /-- `pack_loose_objects()` -/
-def packLoose (s : Store) (now : Nat) : Store :=
+def packLoose (v : Variant) (s : Store) (now : Nat) : Store :=
   if s.looseIds.isEmpty then s
-  else { loose := [], packs := (installPack s.packs (dedup s.looseIds) now).1, alts := s.alts }
+  else { loose := [], packs := (installPack v s.packs (dedup s.looseIds) now).1, alts := s.alts }
 
 /-- `prune_unreachable_objects(store, refs, grace_period)`: deletes the *loose* file of every unreachable
-object that is old enough (packed copies are untouched: `delete_loose_object` raises `FileNotFoundError`,
-which is swallowed).  `reach` is the result of `findReachable`. -/
-def pruneLoose (s : Store) (reach : List Id) (grace : Option Nat) (now : Nat) : Store :=
-  { s with loose := s.loose.filter (fun e => reach.contains e.1 || young grace now e.2) }
+object that is old enough according to `get_object_mtime` (packed copies are untouched: `delete_loose_object` raises
+`FileNotFoundError`, which is swallowed).  `reach` is the result of `findReachable`. -/
+def pruneLoose (v : Variant) (s : Store) (reach : List Id) (grace : Option Nat) (now : Nat) : Store :=
+  { s with loose := s.loose.filter (fun e => reach.contains e.1 || !selectable v s grace now e.1) }
 
 /-- the set returned by `prune_unreachable_objects` -/
-def prunedLoose (s : Store) (reach : List Id) (grace : Option Nat) (now : Nat) : List Id :=
-  (s.loose.filter (fun e => !(reach.contains e.1 || young grace now e.2))).map (·.1)
+def prunedLoose (v : Variant) (s : Store) (reach : List Id) (grace : Option Nat) (now : Nat) : List Id :=
+  (s.loose.filter (fun e => !(reach.contains e.1 || !selectable v s grace now e.1))).map (·.1)
 
 /-- `garbage_collect(repo, prune=…, grace_period=…)` given the reachable set: select, pack refs (no effect on
 objects), delete the selected loose objects, `repack(exclude=selected)`, prune temp files (no logical effect). -/
-def gcWith (s : Store) (reach : List Id) (prune : Bool) (grace : Option Nat) (now : Nat) : Store :=
-  let sel := if prune then toPrune s reach grace now else []
+def gcWith (v : Variant) (s : Store) (reach : List Id) (prune : Bool) (grace : Option Nat) (now : Nat) : Store :=
+  let sel := if prune then toPrune v s reach grace now else []
   let s1 : Store := { s with loose := s.loose.filter (fun e => !sel.contains e.1) }
-  repack s1 sel now
+  repack v s1 sel now
 
 /-! ### operations as data -/
 
@@ -167,19 +189,23 @@ inductive Op where
   deriving DecidableEq, Repr
 
 /-- One maintenance operation; `none` only when the reachability walk runs out of fuel. -/
-def apply (G : Id → List Id) (roots : List Id) (fuel : Nat) (op : Op) (s : Store) : Option Store :=
+def apply (v : Variant) (G : Id → List Id) (roots : List Id) (fuel : Nat) (op : Op) (s : Store) : Option Store :=
   match op with
-  | .packLoose now => some (packLoose s now)
-  | .repack now => some (repack s [] now)
-  | .prune grace now => (findReachable s G roots fuel).map (fun r => pruneLoose s r grace now)
-  | .gc prune grace now => (findReachable s G roots fuel).map (fun r => gcWith s r prune grace now)
+  | .packLoose now => some (packLoose v s now)
+  | .repack now => some (repack v s [] now)
+  | .prune grace now => (findReachable s G roots fuel).map (fun r => pruneLoose v s r grace now)
+  | .gc prune grace now => (findReachable s G roots fuel).map (fun r => gcWith v s r prune grace now)
   | .noop => some s
 
-def applyAll (G : Id → List Id) (roots : List Id) (fuel : Nat) : List Op → Store → Option Store
+def applyAll (v : Variant) (G : Id → List Id) (roots : List Id) (fuel : Nat) : List Op → Store → Option Store
   | [], s => some s
-  | op :: ops, s => (apply G roots fuel op s).bind (applyAll G roots fuel ops)
+  | op :: ops, s => (apply v G roots fuel op s).bind (applyAll v G roots fuel ops)
 
 /-- the default `grace_period` argument of `garbage_collect` (regenerated from the source) -/
 def defaultGrace : Option Nat := some Dulwich.Gen.GC.defaultGracePeriod
+
+/-- the variant the source implements now (regenerated) -/
+def Variant.current : Variant :=
+  { maxMtime := Dulwich.Gen.GC.getObjectMtimeUsesMax, refreshExisting := Dulwich.Gen.GC.completePackRefreshesMtime }
 
 end Dulwich.GC
